@@ -97,13 +97,20 @@ def ensure_makefile():
                        stdout=subprocess.DEVNULL, stderr=subprocess.DEVNULL)
 
 
+_LOCK_HELD = [False]
+
+
 def make(targets, timeout=1500, jobs=NPROC):
     """make the given .vo targets (paths relative to coq/). Returns (ok, output)."""
-    with Lock():
+    def go():
         ensure_makefile()
         cmd = ['timeout', str(timeout), 'make', '-j%d' % jobs] + list(targets)
         p = subprocess.run(cmd, cwd=COQ, stdout=subprocess.PIPE, stderr=subprocess.STDOUT, text=True)
         return p.returncode == 0, p.stdout
+    if _LOCK_HELD[0]:
+        return go()
+    with Lock():
+        return go()
 
 
 def compile_props(prop_file, timeout=1500):
@@ -228,7 +235,11 @@ def load_known_findings(prop):
     if not os.path.exists(p):
         return []
     data = json.load(open(p))
-    return [f for f in data.get('findings', []) if f.get('property') == prop]
+    fs = [f for f in data.get('findings', []) if f.get('property') == prop]
+    extra = os.environ.get('VERIF_EXTRA_FINDINGS')   # development aid only; never set by registered commands
+    if extra and os.path.exists(extra):
+        fs += [f for f in json.load(open(extra)).get('findings', []) if f.get('property') == prop]
+    return fs
 
 
 def write_json(path, obj):
@@ -355,6 +366,15 @@ def finish(res, checker_cmd, level='proof'):
 
 def standard_prove(res, prop_file, gen_targets=None):
     """translate (optional), then compile Props file; registers obligations on res."""
+    with Lock():
+        _LOCK_HELD[0] = True
+        try:
+            return _standard_prove(res, prop_file, gen_targets)
+        finally:
+            _LOCK_HELD[0] = False
+
+
+def _standard_prove(res, prop_file, gen_targets=None):
     if gen_targets:
         sys.path.insert(0, os.path.join(VERIF, 'translator'))
         import py2coq
